@@ -107,7 +107,9 @@ func fixed(s string, dec int) (int64, bool) {
 	return v, err == nil
 }
 
-func be32(v int64) hx.B { return hx.B{int(v >> 24 & 255), int(v >> 16 & 255), int(v >> 8 & 255), int(v & 255)} }
+func be32(v int64) hx.B {
+	return hx.B{int(v >> 24 & 255), int(v >> 16 & 255), int(v >> 8 & 255), int(v & 255)}
+}
 
 // locSize: centimetres -> RFC 1876 s.2 mantissa/exponent octet; exact values only.
 func locSize(cm int64) (int, bool) {
